@@ -23,7 +23,7 @@ import (
 // meet the keyword (getSingleKeyword needs one token).
 func c08CSSWideIsWhole(c *core.Check) {
 	p := c.Prog
-	r := c.Rule("R22", "inherit and initial are whole values: every call of validateNonShorthand made by an expander with one part of the shorthand's value (required = true) is unreachable when several values were given and the part is inherit or initial: a comparison of the part's keyword with both words precedes it (lists of two tokens or more, which cannot be a keyword, and the classifying expander of the font-variant descriptor excepted)", 2)
+	r := c.Rule("R22", "inherit and initial are whole values: every call of validateNonShorthand made by an expander with one part of the shorthand's value (required = true) is unreachable when several values were given and the part is inherit or initial: a comparison of the part's keyword with both words precedes it (lists of two tokens or more, which cannot be a keyword, and the classifying expander of the font-variant descriptor excepted)", 1)
 	target := p.Fn("css/validation", "validateNonShorthand")
 	if target == nil {
 		r.Anchor("css/validation.validateNonShorthand")
